@@ -622,6 +622,73 @@ int __wrap_mtx_unlock(void *m) { return IN_SIM() ? sim_lock_release(m) : pthread
 void __wrap_call_once(void *c, void (*fn)(void)) { if (IN_SIM()) sim_once(c, fn); else pthread_once((pthread_once_t *)c, fn); }
 }
 
+// ---- thread-specific data keys created by library code: remembered so that (a) a pass can give them back (the statics
+// that hold them are restored for every pass, so the library creates them again) and (b) a thread can be "renewed"
+struct LibKey { pthread_key_t key; void (*dtor)(void *); };
+static std::vector<LibKey> g_lib_keys;
+extern "C" {
+int __wrap_pthread_key_create(pthread_key_t *key, void (*dtor)(void *)) {
+    on_event();
+    int rc = pthread_key_create(key, dtor);
+    if (rc == 0) g_lib_keys.push_back({*key, dtor});
+    return rc;
+}
+int __wrap_pthread_key_delete(pthread_key_t key) {
+    on_event();
+    for (size_t i = 0; i < g_lib_keys.size(); i++)
+        if (g_lib_keys[i].key == key) { g_lib_keys.erase(g_lib_keys.begin() + i); break; }
+    return pthread_key_delete(key);
+}
+int __wrap_tss_create(pthread_key_t *key, void (*dtor)(void *)) { return __wrap_pthread_key_create(key, dtor) == 0 ? 0 /*thrd_success*/ : 2 /*thrd_error*/; }
+void __wrap_tss_delete(pthread_key_t key) { __wrap_pthread_key_delete(key); }
+}
+static void lib_keys_release() {
+    for (auto &k : g_lib_keys) pthread_key_delete(k.key);
+    g_lib_keys.clear();
+}
+
+// ---- thread renewal (C12 oracle H): what the library keeps per thread is put back to what a thread that has just
+// been created sees - the library's thread-local block is re-initialised from its image, values the library stored
+// under keys it created are destructed (as at thread exit) and cleared.
+struct TlsBlk { void *data; uintptr_t init; size_t filesz, memsz; };
+static int tls_cb(struct dl_phdr_info *info, size_t, void *out) {
+    if (info->dlpi_addr != g_lib.base) return 0;
+    TlsBlk *b = (TlsBlk *)out;
+    for (int i = 0; i < info->dlpi_phnum; i++)
+        if (info->dlpi_phdr[i].p_type == PT_TLS) {
+            b->data = info->dlpi_tls_data;
+            b->init = info->dlpi_addr + info->dlpi_phdr[i].p_vaddr;
+            b->filesz = info->dlpi_phdr[i].p_filesz;
+            b->memsz = info->dlpi_phdr[i].p_memsz;
+        }
+    return 1;
+}
+extern "C++" size_t lib_tls_size() {
+    TlsBlk b = {nullptr, 0, 0, 0};
+    dl_iterate_phdr(tls_cb, &b);
+    return b.data ? b.memsz : 0;
+}
+extern "C++" void lib_thread_renew() {
+    for (int round = 0; round < 4; round++) {
+        bool any = false;
+        for (size_t i = 0; i < g_lib_keys.size(); i++) {
+            LibKey k = g_lib_keys[i];
+            void *v = pthread_getspecific(k.key);
+            if (!v) continue;
+            pthread_setspecific(k.key, nullptr);
+            if (k.dtor) k.dtor(v);
+            any = true;
+        }
+        if (!any) break;
+    }
+    TlsBlk b = {nullptr, 0, 0, 0};
+    dl_iterate_phdr(tls_cb, &b);
+    if (!b.data || !b.memsz) return;
+    raw_copy(b.data, (const void *)b.init, b.filesz);
+    volatile uint8_t *z = (volatile uint8_t *)b.data;
+    for (size_t i = b.filesz; i < b.memsz; i++) z[i] = 0;
+}
+
 // non-reentrant libc entry points: referenced by the library only if a change
 // introduces them; their use is a yield point and is logged (C12 channel probe)
 char *__wrap_asctime(const struct tm *tm) { libc_probe(0); char *r = asctime(tm); on_event(); return r; }
@@ -803,7 +870,7 @@ void arena_fill(Task &t) {
     }
     for (const Op &op : t.plan->ops)
         for (const Blob &bl : op.blobs)
-            if (bl.off >= ARENA_LO && bl.off + bl.bytes.size() <= ARENA_HI) memcpy(b + bl.off, bl.bytes.data(), bl.bytes.size());
+            if (!op.late && bl.off >= ARENA_LO && bl.off + bl.bytes.size() <= ARENA_HI) memcpy(b + bl.off, bl.bytes.data(), bl.bytes.size());
 }
 
 // ------------------------------------------------------------------ scheduler
@@ -935,6 +1002,9 @@ static void run_one_op(Task &t, int i, const Op &op) {
     t.wr_bytes = 0;
     t.rd_pos = 0;
     if (!null_op) {
+        if (op.late)
+            for (const Blob &bl : op.blobs)
+                if (bl.off >= ARENA_LO && bl.off + bl.bytes.size() <= ARENA_HI) memcpy(t.arena.base + bl.off, bl.bytes.data(), bl.bytes.size());
         stack_scrub();
         errno = 0;
         t.countdown = g_sim.strat->arm(t);
@@ -963,6 +1033,7 @@ static void *task_main(void *arg) {
     for (size_t i = 0; i < tp.ops.size(); i++) {
         t->cur_op = (int)i;
         t->ev = 0;
+        if (i > 0 && g_sim.cfg.renew_threads) lib_thread_renew();
         int tgt = g_sim.strat->at_boundary(*t);
         if (tgt >= 0 && tgt != t->id && runnable(tgt)) do_switch(*t, tgt, true);
         run_one_op(*t, (int)i, tp.ops[i]);
@@ -1037,6 +1108,7 @@ void run_pass(const Plan &plan, const PassCfg &cfg, Strategy &strat, PassResult 
     g_freed.clear();
     g_locks.clear();
     g_onces.clear();
+    lib_keys_release();
     setlocale(LC_ALL, plan.locale ? "C.UTF-8" : "C");
     settings_reset();
     g_sim.plan = &plan;
